@@ -2,7 +2,7 @@
 import z3
 
 from .values import *
-from .core import Unsupported
+from .core import Unsupported, is_sym
 from .models import model
 from .syn_models import node_span
 
@@ -22,3 +22,66 @@ def m_opq_conv(I, st, inst, args):
 @model("*::opq_with")
 def m_opq_with(I, st, inst, args):
     return Lazy("convw(%s)" % item_origin(I, st, args[0]), inst.sig[-1])
+
+
+# ---------------------------------------------------------------------------- hconv hooks (uninterpreted outcomes)
+def _expr_name(v):
+    import z3 as _z3
+    if isinstance(v, bool):
+        return str(v).lower()
+    if isinstance(v, int):
+        return str(v)
+    if isinstance(v, str):
+        return repr(v)
+    if is_sym(v):
+        s = _z3.simplify(v)
+        if _z3.is_const(s) and s.decl().kind() == _z3.Z3_OP_UNINTERPRETED:
+            return s.decl().name()
+        return s.sexpr()
+    return repr(v)
+
+
+def _tag(I, st, v):
+    return I.concrete_int(st, v)
+
+
+@model("*::hook_word")
+def m_hook_word(I, st, inst, args):
+    return Lazy("hook(word,%d)" % _tag(I, st, args[0]), inst.sig[-1])
+
+
+@model("*::hook_list")
+def m_hook_list(I, st, inst, args):
+    from vlib.view import pristine
+    from .models import slice_elems
+    p = args[1]
+    base = Ptr(p.cell, p.path)
+    whole = I.read(st, base, expand_scalar=False)
+    name = None
+    if isinstance(whole, Agg):
+        names = []
+        for x in whole.f[: p.meta if isinstance(p.meta, int) else len(whole.f)]:
+            n = pristine(I, st, x)
+            names.append(n if n is not None else "?")
+        name = "[" + ",".join(names) + "]"
+    elif isinstance(whole, Lazy):
+        name = whole.name
+    return Lazy("hook(list,%d,%s)" % (_tag(I, st, args[0]), name), inst.sig[-1])
+
+
+@model("*::hook_bool", "*::hook_char")
+def m_hook_scalar(I, st, inst, args):
+    kind = "bool" if inst.name.endswith("hook_bool") else "char"
+    return Lazy("hook(%s,%d,%s)" % (kind, _tag(I, st, args[0]), _expr_name(args[1])), inst.sig[-1])
+
+
+@model("*::hook_string")
+def m_hook_string(I, st, inst, args):
+    from .models import str_of
+    return Lazy("hook(string,%d,%s)" % (_tag(I, st, args[0]), _expr_name(str_of(I, st, args[1]))), inst.sig[-1])
+
+
+@model("*::hook_value", "*::hook_expr", "*::hook_meta")
+def m_hook_node(I, st, inst, args):
+    kind = inst.name.rsplit("hook_", 1)[1]
+    return Lazy("hook(%s,%d,%s)" % (kind, _tag(I, st, args[0]), item_origin(I, st, args[1])), inst.sig[-1])
